@@ -23,6 +23,26 @@ var c17Catalogue = []c17File{
 	{"a/notes.txt", "", true, "not Go\n"},
 	{"a/missing.go", "", false, ""},
 	{"a/sub/w.go", "example.com/m/a/sub", true, "package sub\n\nvar W = 4\n"},
+	// a sound package importing a package of the module with a type error inside a function body
+	{"c/u.go", "example.com/m/c", true, "package c\n\nimport \"example.com/m/bad\"\n\nvar U = bad.V\n"},
+}
+
+const c17BadPkg = "package bad\n\nvar V = 5\n\nfunc f() {\n\tvar x int = \"s\"\n\t_ = x\n}\n"
+
+// c17Spell: a spelling of the path of a file: clean absolute, absolute with redundant elements, relative
+// to the working directory (the module root).
+func c17Spell(base, rel string, form int) string {
+	switch form {
+	case 1:
+		return base + "/./" + rel
+	case 2:
+		return base + "/a/../" + rel
+	case 3:
+		return rel
+	case 4:
+		return "./" + rel
+	}
+	return base + "/" + rel
 }
 
 // HC17_loadSources: every listed file is mapped, in order, to the package containing it; a
@@ -37,7 +57,11 @@ func HC17_loadSources() {
 	for i := range picks {
 		picks[i] = c17Catalogue[vfChoice(fmt.Sprint("file", i), len(c17Catalogue))]
 	}
-	base := "/m"
+	forms := make([]int, n)
+	for i := range forms {
+		forms[i] = vfChoice(fmt.Sprint("form", i), vfParam("C17.forms", 5))
+	}
+	base := "/work"
 	if !vfEngine() {
 		dir, err := os.MkdirTemp("", "vfc17-")
 		if err != nil {
@@ -45,7 +69,13 @@ func HC17_loadSources() {
 		}
 		defer os.RemoveAll(dir)
 		base, _ = filepath.EvalSymlinks(dir)
+		if wd, err := os.Getwd(); err == nil {
+			defer os.Chdir(wd)
+		}
+		os.Chdir(base)
 		os.WriteFile(filepath.Join(base, "go.mod"), []byte("module example.com/m\n\ngo 1.21\n"), 0o644)
+		os.MkdirAll(filepath.Join(base, "bad"), 0o755)
+		os.WriteFile(filepath.Join(base, "bad", "bad.go"), []byte(c17BadPkg), 0o644)
 		for _, f := range c17Catalogue {
 			if f.exists {
 				os.MkdirAll(filepath.Dir(filepath.Join(base, f.rel)), 0o755)
@@ -57,6 +87,7 @@ func HC17_loadSources() {
 		// directories holding the requested Go files, each with all its Go files)
 		byPkg := map[string]*packages.Package{}
 		var loaded []*packages.Package
+		nbErrors := 0
 		for _, f := range c17Catalogue {
 			vfFileExists(base+"/"+f.rel, f.exists)
 		}
@@ -70,14 +101,18 @@ func HC17_loadSources() {
 					p.GoFiles = append(p.GoFiles, base+"/"+f.rel)
 				}
 			}
+			if pk.pkg == "example.com/m/c" { // its import has a type error: PrintErrors walks the import graph
+				p.Imports = map[string]*packages.Package{"example.com/m/bad": {ID: "example.com/m/bad", PkgPath: "example.com/m/bad", Errors: []packages.Error{{Msg: "cannot use \"s\" as int value"}}}}
+				nbErrors++
+			}
 			byPkg[pk.pkg] = p
 			loaded = append(loaded, p)
 		}
-		vfLoadResult(loaded, 0)
+		vfLoadResult(loaded, nbErrors)
 	}
 	var files []string
-	for _, pk := range picks {
-		files = append(files, base+"/"+pk.rel)
+	for i, pk := range picks {
+		files = append(files, c17Spell(base, pk.rel, forms[i]))
 	}
 	var out []*packages.Package
 	var root string
@@ -90,10 +125,10 @@ func HC17_loadSources() {
 	}
 	bad := false
 	for _, pk := range picks {
-		bad = bad || pk.pkg == "" || !pk.exists
+		bad = bad || pk.pkg == "" || !pk.exists || pk.pkg == "example.com/m/c"
 	}
 	vfObserve("error", err != nil)
-	vfAssert((err != nil) == bad, "C17/missing-or-non-go-files-are-reported-as-errors-and-only-them")
+	vfAssert((err != nil) == bad, "C17/missing-files-non-go-files-and-ill-typed-packages-are-reported-as-errors-and-only-them")
 	if err != nil {
 		return
 	}
@@ -107,8 +142,8 @@ func HC17_loadSources() {
 	rel := strings.TrimPrefix(root, base)
 	vfObserve("root", rel)
 	okRoot := strings.HasPrefix(root, base)
-	for _, f := range files {
-		d := filepath.Dir(f)
+	for _, pk := range picks {
+		d := filepath.Dir(base + "/" + pk.rel)
 		okRoot = okRoot && strings.HasPrefix(d, root) && (len(d) == len(root) || d[len(root)] == '/' || strings.HasSuffix(root, "/"))
 	}
 	vfAssert(okRoot, "C17/root-is-a-directory-containing-every-file")
